@@ -517,11 +517,15 @@ func C11(run *Run) {
 			for _, q := range reqs {
 				ev := &CheckEv{Eng: combo, O: q.O, R: q.R, U: q.U, Ctx: q.Ctx}
 				env.RunCheck(ctx, ev, ts, mg)
+				// KF-27 call site: a must-be-fresh Check on the query cache in a round in which requests were
+				// also issued inside the invalidation window (they may have stored a parent entry computed
+				// from a stale child entry; CheckCache_dispatch.cfg)
 				rec.Add(struct {
 					*CheckEv
 					Stale     string `json:"stale"`
 					Prewarmed bool   `json:"prewarmed"`
-				}{ev, stale, false})
+					InWindow  bool   `json:"inwindow"`
+				}{ev, stale, false, pw && prewarmed})
 				run.Evals++
 			}
 			q := reqs[0]
